@@ -4163,7 +4163,11 @@ impl ExecutionTimeout {
 
         Self {
             last_check: now,
-            deadline: now + execution_limit,
+            // A limit beyond the clock's range (e.g. Duration::MAX) can never be reached,
+            // `now + execution_limit` would panic.
+            deadline: now
+                .checked_add(execution_limit)
+                .unwrap_or_else(|| now + Duration::from_secs(u32::MAX as u64)),
             interval_seconds,
             interval_instructions: first_interval_instruction_count as usize,
             instructions_since_last_check: 0,
